@@ -335,6 +335,29 @@ def utf8_encoded(st, t):
     return cache[key]
 
 
+CHAR_UPPER = z3.Function("Char.upper_id", CHAR, z3.IntSort())
+
+
+def upper_of_char_text(st, t):
+    """Assumed model of `s.upper()` for a str s of exactly one character c (proved on the path; Unsupported
+    otherwise): some str that is a function of c alone — the same text every time, identified by CHAR_UPPER(c);
+    nothing is assumed about its length or contents (e.g. 'ß'.upper() == 'SS')."""
+    n1 = t.length
+    if not (isinstance(n1, int) and n1 == 1):
+        r0, _m = st._check(V._z(n1) != 1, st.cfg.branch_timeout_ms)
+        if r0 != z3.unsat:
+            raise Unsupported("str.upper() of a text whose length is not known to be 1")
+    c = t.get(0)
+    cache = st.ghost.setdefault("upper_of", {})
+    key = str(c.e)
+    if key not in cache:
+        n = st.fresh_int("upper_len")
+        u = SText("str", n, st.fresh_name("upper"))
+        st.assume(z3.And(n.e >= 0, z3.Int(f"{u.name}$id") == CHAR_UPPER(c.e)))
+        cache[key] = u
+    return cache[key]
+
+
 def xcheck_utf8_encode():
     """CPython agrees with the assumed facts of `utf8_encoded` on a sample of strings (all planes, empty, surrogates)."""
     bad = []
